@@ -96,7 +96,8 @@ s = s[:i] + "## 8. Seeded changes and which checks catch them\n\n" + \
     "`reverse`, `mode`, ...: now outside the vocabulary instead of ignored), a NaN-unsafe identification of a selection on a comparison with " \
     "`minimum` / `maximum`, and missing obligations (dictionary orders against sorted pytree leaves, field converters through the constructors, " \
     "an empty parameter batch, constructor counters, stop_gradient on the hyper-network input or on a differentiated variable, donated buffers, " \
-    "non-array data in dynamic fields). Nine are not decided (dtypes, single-row squeezes, a cached weight, `resize`; section 6).\n\n" + \
+    "non-array data in dynamic fields). Nine were not decided at first; the single-row twins, the replaced-weights obligations and the `resize` " \
+    "model (end of section 3) decide four of them, five remain (dtypes, a change outside C06's quantifier; section 6).@@R7@@\n\n" + \
     tab + "\n\nOne candidate was dropped: `C16_m3` (`i <= start_iter` -> `i < start_iter` in `rar_step_false`). It was produced against " \
     "the tree before repair fc78006; on the repaired tree the period counter equals `update_every - 1` at `start_iter`, a non-step at " \
     "`i == start_iter` can then only be caused by a full store, and the change no longer alters any observable count (its demo passes " \
